@@ -14,6 +14,7 @@ let c14 (toks : string list) : string =
      | Localize.LErr Localize.LMissingParent -> "err missing-parent"
      | Localize.LErr Localize.LMissingFileName -> "err missing-file-name"
      | Localize.LErr Localize.LUnsupportedLanguage -> "err unsupported-language"
+     | Localize.LPanic -> "PANIC"            (* to_str().unwrap(): what harness/src/main.rs prints for a caught panic *)
      | Localize.LUnmodelled -> "unmodelled")
   | _ -> failwith "c14: bad case"
 
